@@ -105,6 +105,9 @@ fn dump_unicode(rep: &mut Report, thorough: bool) {
         if ling && c.is_numeric() {
             bad.push(("lingual_not_numeric".into(), cp));
         }
+        if ling && !c.is_alphabetic() {
+            bad.push(("lingual_is_alphabetic".into(), cp));
+        }
         if ling && (Punctuation::from_char(c).is_some() || matches!(c, '"' | '“' | '”')) {
             bad.push(("lingual_not_punctuation".into(), cp));
         }
@@ -122,12 +125,16 @@ fn dump_unicode(rep: &mut Report, thorough: bool) {
             if ling != c.is_ascii_alphabetic() {
                 bad.push(("ascii_lingual".into(), cp));
             }
+            if c.is_alphanumeric() != c.is_ascii_alphanumeric() {
+                bad.push(("ascii_alphanumeric".into(), cp));
+            }
         }
         if (cp == 0x2019) && c.is_whitespace() {
             bad.push(("apostrophe_not_whitespace".into(), cp));
         }
-        // the shortcut taken by observed_lingual
-        if (thorough || cp % 7 == 0 || cp < 0x3000) && !c.is_alphabetic() && !c.is_alphanumeric() {
+        // the shortcut taken by observed_lingual = the law `lingual => alphabetic` of C02_words_maximal
+        // (quick: a sample beyond U+3000; thorough: every scalar value)
+        if (thorough || cp % 3 == 0 || cp < 0x3000) && !c.is_alphabetic() && !c.is_alphanumeric() {
             let t = PlainEnglish.parse(&[c]);
             if t.len() == 1 && matches!(t[0].kind, TokenKind::Word(_)) {
                 bad.push(("lingual_implies_alphabetic".into(), cp));
@@ -255,6 +262,10 @@ fn number_shape(n: &Number, text: &[char]) -> Option<String> {
         }
     }
     let lit_s: String = lit.iter().collect();
+    if !n.value.0.is_finite() {
+        // C02_document_numbers_finite: no literal of digits denotes an infinity or a NaN
+        return Some("the value is not finite, no literal denotes it".into());
+    }
     if n.radix == 16 {
         let ok = lit.len() >= 3 && lit[0] == '0' && lit[1] == 'x' && u64::from_str_radix(&lit_s[2..], 16).map(|v| v as f64 == n.value.0).unwrap_or(false);
         if !ok {
@@ -326,19 +337,45 @@ fn general_failures(toks: &[Token], len: usize) -> Vec<(&'static str, String)> {
 
 // ---------------------------------------------------------------- cases
 fn case_plain(rep: &mut Report, text: &str, dict: &Arc<FstDictionary>, origin: &str) {
+    case_plain_pinned(rep, text, dict, origin, None, None)
+}
+
+/// `pin_raw` / `pin_doc`: the tokens (in the correspondence syntax) the witness of a REPAIRED finding must
+/// have; the pins were taken from the extracted model, which the correspondence run re-confirms every time.
+fn case_plain_pinned(rep: &mut Report, text: &str, dict: &Arc<FstDictionary>, origin: &str, pin_raw: Option<&str>, pin_doc: Option<&str>) {
     rep.eval();
     let src: Vec<char> = text.chars().collect();
-    let inp = json!({"kind": "plain", "text": text, "origin": origin});
+    let mut inp = json!({"kind": "plain", "text": text, "origin": origin});
+    if let Some(p) = pin_raw {
+        inp["pin_raw"] = json!(p);
+    }
+    if let Some(p) = pin_doc {
+        inp["pin_doc"] = json!(p);
+    }
     // L: raw tokens
     let raw = guarded(|| PlainEnglish.parse(&src));
     match &raw {
         Ok(ts) => rep.case(&format!("L {}", cps(&src)).trim(), &toks_line(ts)),
         Err(_) => rep.case(&format!("L {}", cps(&src)).trim(), "P"),
     }
+    if let (Some(p), Ok(ts)) = (pin_raw, &raw) {
+        rep.count("pinned_witness:raw");
+        if toks_line(ts) != p {
+            fail(rep, "regression_pin", format!("PlainEnglish.parse on the witness of a repaired finding: tokens `{}`, pinned (model-confirmed) `{p}`", toks_line(ts)), inp.clone());
+        }
+    }
     match &raw {
         Ok(ts) => {
             if let Some(m) = tiling_failure(ts, src.len()) {
                 fail(rep, "plain_tiling", format!("PlainEnglish.parse does not tile the text: {m}"), inp.clone());
+            }
+            // C02_words_maximal: a raw Word token is a whole word
+            for w in ts.windows(2) {
+                if matches!(w[0].kind, TokenKind::Word(_)) && matches!(w[1].kind, TokenKind::Word(_)) && w[0].span.end == w[1].span.start {
+                    let a: String = w[0].span.get_content(&src).iter().collect();
+                    let b: String = w[1].span.get_content(&src).iter().collect();
+                    fail(rep, "word_split", format!("raw tokens: two adjacent Word tokens {:?} {:?} at {:?}: a word was cut in two", a, b, w[0].span), inp.clone());
+                }
             }
             for i in 0..ts.len() {
                 for (c, m) in shape_failures(i, ts, &src, true) {
@@ -353,6 +390,12 @@ fn case_plain(rep: &mut Report, text: &str, dict: &Arc<FstDictionary>, origin: &
     match &doc {
         Ok(ts) => rep.case(&format!("D {}", cps(&src)).trim(), &toks_line(ts)),
         Err(_) => rep.case(&format!("D {}", cps(&src)).trim(), "P"),
+    }
+    if let (Some(p), Ok(ts)) = (pin_doc, &doc) {
+        rep.count("pinned_witness:doc");
+        if toks_line(ts) != p {
+            fail(rep, "regression_pin", format!("Document::new_plain_english on the witness of a repaired finding: tokens `{}`, pinned (model-confirmed) `{p}`", toks_line(ts)), inp.clone());
+        }
     }
     match &doc {
         Ok(ts) => {
@@ -536,6 +579,12 @@ const C02_ITEMS: &[&str] = &[
     "don't", "it’s", "rock'n'roll", "a'b'c'd", "y'all'd've", "'tis", "dogs'", "...", "..", "....", ". . .", ".....", "…",
     "1st", "2nd", "3rd", "4th", "21th", "21thing", "1ST", "2Nd", "3.5th", "0x1Fth", "1e3rd", "7 th", "1990s", "1990st", "2000s.", "90s", "1's", "a's", "as",
     "0x1F", "0xdeadbeef", "0xZZ", "0x", "0x1g", "0xFFFFFFFFFFFFFFFF", "0x10000000000000000", "3.14", "1e10", "1e999", "5.", "5..", "1.e5", "1e+5", "1e-5", "1e+", "1.2.3", "1-2", "1+1", "1e5e5", "00.10", "9007199254740993", "123456789012345678901234567890",
+    "1e308", "1e309", "1.7976931348623157e308", "1.7976931348623158e308", "1.7976931348623159e308", "17976931348623158e292", "17976931348623159e292", "1e-400", "1e99999999999999999999", "1e-99999999999999999999",
+    "0.0000000000000000000000000000000000000000000000000000000000000000000001e400", "123456789e301", "9e999th", "1e999TH", "2e308.5",
+    // 2^1024 - 2^970 (the first integer that rounds to infinity) and its predecessor
+    "179769313486231580793728971405303415079934132710037826936173778980444968292764750946649017977587207096330286416692887910946555547851940402630657488671505820681908902000708383676273854845817711531764475730270069855571366959622842914819860834936475292719074168444365510704342711559699508093042880177904174497792",
+    "179769313486231580793728971405303415079934132710037826936173778980444968292764750946649017977587207096330286416692887910946555547851940402630657488671505820681908902000708383676273854845817711531764475730270069855571366959622842914819860834936475292719074168444365510704342711559699508093042880177904174497791",
+    "asüsociations", "esäctqda", "asü", "1sé", "a'sé", "A’sü", "as٣", "1s²", "asßen", "isаk", "2st's", "11st’s", "2nd's", "3rd'll", "the 2st's value", "1st'", "don't2nd", "1'st",
     "٣", "½", "²", "٣4", "4٣",
     "https://example.com", "https://a.b/c?d=e#f", "http://user:pw@host.com:8080/path", "http://user@host.com/x", "joe@x.com", "\"a b\"@x.com", "a..b@x.com", ".a@x.com", "example.com",
     "www.foo.org", "a@b", "@handle", "https://", "http://x", "://x", "ftp://files.example.org/a.txt", "mailto:a@b.co", "first.last+tag@sub.example.co.uk", "http://a.b/%41%zz", "x.y.", "a-b.c", "foo.rs", "1.2",
@@ -679,7 +728,7 @@ pub fn replay_input(rep: &mut Report, v: &Value, dict: &Arc<FstDictionary>) {
     match v["kind"].as_str().unwrap_or("plain") {
         "plain" => {
             if let Some(t) = v["text"].as_str() {
-                case_plain(rep, t, dict, v["origin"].as_str().unwrap_or("corpus"));
+                case_plain_pinned(rep, t, dict, v["origin"].as_str().unwrap_or("corpus"), v["pin_raw"].as_str(), v["pin_doc"].as_str());
             }
         }
         "fe" => {
